@@ -13,6 +13,7 @@ ENV = dict(os.environ, GOFLAGS="-mod=mod", GOPROXY="off", GOSUMDB="off", GOTOOLC
 PROPS = ["C%02d" % i for i in range(1, 21)]
 BASE_FAIL = {"github.com/cloudflare/circl/hpke"}  # TestVectors fails on the unchanged tree (baseline always_fail)
 SCR = "/tmp/sv"
+CHECKS_ONLY = False
 
 def run(cmd, cwd, timeout=1800):
     p = subprocess.run(cmd, cwd=cwd, env=ENV, shell=isinstance(cmd, str), stdout=subprocess.PIPE, stderr=subprocess.STDOUT, text=True, timeout=timeout)
@@ -36,6 +37,36 @@ def validate(seed):
         res["applies"] = rc == 0
         if rc != 0:
             res["error"] = "apply: " + out[-300:]
+            return res
+        prev = None
+        if CHECKS_ONLY:
+            pv = os.path.join(seed, "validation.json") if os.path.isdir(seed) else seed + ".validation.json"
+            if os.path.exists(pv):
+                pj = json.load(open(pv))
+                if pj.get("applies") and pj.get("builds") and pj.get("tests_pass_like_baseline") and pj.get("demo_fails_with_patch") in (True, None) and pj.get("demo_passes_without_patch") in (True, None):
+                    prev = pj
+        if prev is not None:
+            # the change was confirmed earlier (build, suite, demonstration): only re-run the checks on it
+            rc, out = run("go build ./...", wt)
+            res["builds"] = rc == 0
+            if rc != 0:
+                res["error"] = "build: " + out[-500:]
+                return res
+            for k in ("tests_failed_packages", "tests_pass_like_baseline", "demo_fails_with_patch", "demo_passes_without_patch", "demo_output_with_patch"):
+                if k in prev:
+                    res[k] = prev[k]
+            res["confirmed_at"] = prev.get("confirmed_at", prev.get("at"))
+            res["confirmed_on_head"] = prev.get("confirmed_on_head", prev.get("repo_head"))
+            det = {}
+            evd = os.path.join(SCR, "ev-" + sid)
+            os.makedirs(evd, exist_ok=True)
+            for p in PROPS:
+                rc, out = run(["/verif/bin/circlcheck", "-property", p, "-tier", "quick", "-repo", wt, "-evidence", os.path.join(evd, p + ".json")], "/verif", timeout=3600)
+                if "VIOLATION" in out:
+                    lines = [l.strip() for l in out.splitlines() if ": violated:" in l or ": undecided:" in l]
+                    det[p] = [l[:260] for l in lines[:3]]
+            shutil.rmtree(evd, ignore_errors=True)
+            res["detected_by"] = det
             return res
         rc, out = run("go build ./... && go test -vet=off -count=1 -run '^$' ./... >/dev/null", wt)
         res["builds"] = rc == 0
@@ -84,8 +115,11 @@ def validate(seed):
     return res
 
 def main():
+    global CHECKS_ONLY
     args = sys.argv[1:]
     jobs = 4
+    if args and args[0] == "--checks-only":
+        CHECKS_ONLY = True; args = args[1:]
     if args and args[0] == "-j":
         jobs = int(args[1]); args = args[2:]
     os.makedirs(SCR, exist_ok=True)
